@@ -94,6 +94,9 @@ func (k *saveKeyValueStorage) ProcessBuiltinFunction(
 		}
 	}
 
+	if input.GasProvided < useGas {
+		return nil, ErrNotEnoughGas
+	}
 	vmOutput.GasRemaining -= useGas
 
 	return vmOutput, nil
